@@ -427,7 +427,18 @@ pub fn gen_clock(rng: &mut Xo) -> ClockSpec {
 /// A solve call that is given `iters` planning iterations (if it does not succeed earlier),
 /// by one of several schedule shapes. Returns the call and the name of the deadline kind.
 pub fn gen_solve(rng: &mut Xo, clock: &mut ClockSpec, iters: u64) -> (CallSpec, &'static str) {
-    match rng.below(6) {
+    match rng.below(7) {
+        // ... inside a goal test
+        6 => (
+            CallSpec::Solve {
+                timeout_ns: 1_000_000_000_000,
+                stalls: vec![
+                    Stall { at: Phase::GoalSat, nth: 1 + rng.below(iters.max(1)), ns: STALL_NS },
+                    Stall { at: Phase::Sample, nth: iters.max(1), ns: STALL_NS },
+                ],
+            },
+            "deadline_in_goal_test",
+        ),
         // the deadline passes inside the k-th sampling event (a stall longer than the timeout)
         0 | 1 | 2 => (
             CallSpec::Solve {
